@@ -166,16 +166,19 @@ def apply_restart(sess, op):
     """save -> drop the object -> from_file -> continue on the reloaded object."""
     w, S = sess.w, sess.w.S
     sess.had_restart = True
-    if sess.prev_snap is None:
-        sess.prev_snap = sess.snapshot(sess.sut)
-    before_snap = sess.prev_snap
-    before_full = sess.full_obs(sess.sut) if "C12" in sess.enabled else None
+    # save() comes first: in a sparse run nothing has been reported since the
+    # last edit, and the file must not depend on a report having been asked for
     r = sess._guard(lambda: sess.sut.save("restart.json"))
     if r[0] != "ok":
         sess.outcomes.append("exc:" + r[1])
         if "C16" in sess.enabled or "C12" in sess.enabled:
             sess.fail("C16" if "C16" in sess.enabled else "C12", "save-succeeds", "save() raised %r" % (r,))
         return
+    if sess.prev_snap is None:
+        sess.stats["save_before_any_report_since_last_edit"] += 1
+        sess.prev_snap = sess.snapshot(sess.sut)
+    before_snap = sess.prev_snap
+    before_full = sess.full_obs(sess.sut) if "C12" in sess.enabled else None
     skew = op.get("skew")
     if skew:
         doc = json.loads(w.disk.files["restart.json"])
